@@ -49,6 +49,17 @@ def cond_of(c):
     return d
 
 
+def represent_vec(v, rep):
+    """the same degree sequence as int64 / int32 array, python list, or a non-contiguous slice of a longer array"""
+    rep = rep or 'int64'
+    if rep == 'list':
+        return list(v)
+    if rep == 'strided':
+        big = np.full(2 * len(v) + 1, 9, dtype=np.int64); big[1::2] = v
+        return big[1::2]
+    return np.array(v, dtype=np.dtype(rep))
+
+
 def basic(F, X, n, sym=None):
     """shape, 0/1 values, empty diagonal (+ symmetry) — common to every generator"""
     if X.shape != (n, n):
@@ -80,7 +91,7 @@ def run_case(c):
     elif r == 'makefractalCIJ':
         st, out = call(bct.makefractalCIJ, c['mx_lvl'], c['E'], c['sz_cl'], seed=seed, t=5)
     elif r == 'makerandCIJdegreesfixed':
-        st, out = call(bct.makerandCIJdegreesfixed, np.array(c['inv']), np.array(c['outv']), seed=seed, t=5)
+        st, out = call(bct.makerandCIJdegreesfixed, represent_vec(c['inv'], c.get('rep')), represent_vec(c['outv'], c.get('rep')), seed=seed, t=5)
     res['status'] = st
     if isinstance(seed, Recorder):
         res['draws'] = seed.flat()
@@ -236,6 +247,8 @@ def gen_cases(rs, tier):
             for _s in range(seeds if big else 3):
                 cases.append({'routine': 'makerandCIJdegreesfixed', 'inv': [int(x) for x in A.sum(0)], 'outv': [int(x) for x in A.sum(1)],
                               'seed': int(rs.randint(2 ** 31)), 'graphical': True})
+                if rs.rand() < .4:      # representation axis: dtype / container / stride of the two degree vectors
+                    cases[-1]['rep'] = ['int32', 'list', 'strided'][int(rs.randint(3))]
     # non-graphical pairs with equal sums (no claim: raising is fine; the model must still agree)
     for inv, outv in (([1, 1], [2, 0]), ([2, 0, 0], [2, 0, 0]), ([3, 0, 0, 0], [0, 3, 0, 0]), ([2, 2, 0], [0, 2, 2])):
         cases.append({'routine': 'makerandCIJdegreesfixed', 'inv': inv, 'outv': outv, 'seed': int(rs.randint(2 ** 31)), 'graphical': False,
@@ -247,7 +260,7 @@ def main():
     ck = Check(PID)
     ck.cov['rule'] = ('cases: makerandCIJ_dir / makeringlatticeCIJ every (N,K) with 2<=N<=8(11), 0<=K<=N(N-1); makerandCIJ_und every K<=N(N-1)/2; 5 seeds each; '
                       'makeevenCIJ N in {4,8,(16)}, every cluster size and every feasible K; maketoeplitzCIJ N=3..6(8), K<=N(N-1)/2, s in {1,2,4}; '
-                      'makefractalCIJ levels 2..4(5), E in {1,2,3}; makerandCIJdegreesfixed on degree sequences of random simple digraphs N<=6(8); '
+                      'makefractalCIJ levels 2..4(5), E in {1,2,3}; makerandCIJdegreesfixed on degree sequences of random simple digraphs N<=6(8), 40 % of them passed as int32 array / python list / strided view; '
                       'non-trivial = distinct case in which the generator returned a non-empty matrix')
     ck.assumptions += ['K feasible: K <= N(N-1) (N(N-1)/2 undirected), K >= number of cluster cells for makeevenCIJ, N a power of two >= 4 where required',
                        'maketoeplitzCIJ (10000 rejections) and makerandCIJdegreesfixed (repair loop) may give up with BCTParamError on in-domain input: reported as violations of the '
@@ -301,6 +314,8 @@ def main():
                 ck.corr_break('maketoeplitzCIJ template is not the Toeplitz matrix of its first row with a zero diagonal', {'case': c, 'template': r['thr']})
         if rt == 'maketoeplitzCIJ' and len(r['draws']) > MAX_REPLAY_DRAWS:
             ck.count('toeplitz:replay-skipped-long-run'); continue
+        if rt == 'makerandCIJdegreesfixed':
+            ck.count('degreesfixed:rep=%s' % (c.get('rep') or 'int64'))
         if rt == 'makerandCIJdegreesfixed' and len(r['draws']) > sum(c['inv']):
             ck.count('degreesfixed:repair-loop-entered')
         if rt in MODELLED:
